@@ -1508,7 +1508,8 @@ class sptensor:
                 "Cannot call nvecs on sptensor with only singleton dimensions"
             )
         # Gram matrix of the mode-n unfolding
-        Xn = self.to_sptenmat(rdims=np.array([n])).double()
+        # Work in double precision whatever the dtype of the stored values
+        Xn = self.to_sptenmat(rdims=np.array([n])).double().astype(np.float64)
         y = Xn.dot(Xn.transpose())
         if r < y.shape[0] - 1:
             # y is real symmetric: use the symmetric solver as tensor.nvecs does
